@@ -227,6 +227,10 @@ func c13child() {
 				res := c13eval(fn, data, j.Size)
 				b, _ := json.Marshal(res)
 				fmt.Printf("E %d %d %s\n", i, fn, b)
+				if res.Alloc > 256<<20 {
+					fmt.Printf("Q %d %d\n", i, fn)
+					return // a fresh child continues (see c13runChild)
+				}
 				if res.Alloc > 32<<20 {
 					debug.FreeOSMemory()
 				}
@@ -310,26 +314,39 @@ func c13spawn(jobs []c13job, out []c13jobRes) (diedJob, diedFn int, fatal string
 	if curJob >= 0 {
 		return curJob, curFn, c13fatalLine(stderr.String()), nil
 	}
-	// all started evaluations finished; verify every requested one is there
-	for i := range jobs {
-		for fn := 0; fn < 2; fn++ {
-			if jobs[i].Mask[fn] && out[i].res[fn] == nil {
-				return -1, -1, "", fmt.Errorf("child ended early without crash marker (job %d, err %v, stderr %s)", i, runErr, c13firstN(stderr.String(), 400))
-			}
-		}
+	if runErr != nil {
+		return -1, -1, "", fmt.Errorf("child failed outside an evaluation: %v, stderr %s", runErr, c13firstN(stderr.String(), 400))
 	}
 	return -1, -1, "", nil
 }
 
-// c13runChild evaluates all jobs in child processes; a fatal crash of the
-// child on a job is confirmed by re-running that single job/function alone in a
-// fresh child (no earlier allocations) before it is reported.
+// c13runChild evaluates all jobs in child processes. The child leaves
+// voluntarily after a very large allocation (re-using freed gigabyte spans is
+// slow: they have to be zeroed), and dies on a fatal runtime error; in both
+// cases a fresh child continues with what is left. A fatal crash on a job is
+// confirmed by re-running that single job/function alone in a fresh child (no
+// earlier allocations) before it is reported.
 func c13runChild(jobs []c13job) ([]c13jobRes, error) {
 	out := make([]c13jobRes, len(jobs))
-	start := 0
 	pending := make([]c13job, len(jobs))
 	copy(pending, jobs)
-	for start < len(jobs) {
+	start := 0
+	for {
+		// skip finished jobs, drop finished functions from the masks
+		for start < len(jobs) {
+			for fn := 0; fn < 2; fn++ {
+				if out[start].res[fn] != nil {
+					pending[start].Mask[fn] = false
+				}
+			}
+			if pending[start].Mask[0] || pending[start].Mask[1] {
+				break
+			}
+			start++
+		}
+		if start >= len(jobs) {
+			return out, nil
+		}
 		sub := make([]c13jobRes, len(jobs)-start)
 		ts := time.Now()
 		dj, dfn, fatal, err := c13spawn(pending[start:], sub)
@@ -342,42 +359,41 @@ func c13runChild(jobs []c13job) ([]c13jobRes, error) {
 		if err != nil {
 			return nil, err
 		}
+		progress := false
 		for i := range sub {
 			for fn := 0; fn < 2; fn++ {
 				if sub[i].res[fn] != nil {
+					if os.Getenv("C13_DEBUG") != "" && sub[i].res[fn].Alloc > 256<<20 {
+						fmt.Fprintf(os.Stderr, "    big: fn %d %q %d\n", fn, pending[start+i].In, sub[i].res[fn].Alloc)
+					}
 					out[start+i].res[fn] = sub[i].res[fn]
+					progress = true
 				}
 			}
 		}
-		if dj < 0 {
-			break
+		if dj >= 0 {
+			k := start + dj
+			single := []c13job{pending[k]}
+			single[0].Mask = [2]bool{}
+			single[0].Mask[dfn] = true
+			one := make([]c13jobRes, 1)
+			cj, _, cfatal, err := c13spawn(single, one)
+			if err != nil {
+				return nil, err
+			}
+			if cj >= 0 {
+				out[k].res[dfn] = &c13res{Out: "crash", Detail: cfatal}
+			} else if one[0].res[dfn] != nil {
+				out[k].res[dfn] = one[0].res[dfn] // did not reproduce alone: use the clean result
+			} else {
+				return nil, fmt.Errorf("confirmation child gave no result for %q", pending[k].In)
+			}
+			progress = true
 		}
-		k := start + dj
-		// confirm alone
-		single := []c13job{pending[k]}
-		single[0].Mask = [2]bool{}
-		single[0].Mask[dfn] = true
-		one := make([]c13jobRes, 1)
-		cj, _, cfatal, err := c13spawn(single, one)
-		if err != nil {
-			return nil, err
-		}
-		if cj >= 0 {
-			out[k].res[dfn] = &c13res{Out: "crash", Detail: cfatal}
-		} else {
-			_ = fatal
-			out[k].res[dfn] = one[0].res[dfn]
-		}
-		pending[k].Mask[dfn] = false
-		for fn := 0; fn <= dfn; fn++ {
-			pending[k].Mask[fn] = false
-		}
-		start = k
-		if !pending[k].Mask[0] && !pending[k].Mask[1] {
-			start = k + 1
+		if !progress {
+			return nil, fmt.Errorf("child made no progress at job %d (%q)", start, pending[start].In)
 		}
 	}
-	return out, nil
 }
 
 // ---------------------------------------------------------------- enumeration
@@ -449,13 +465,14 @@ func (s *c13state) judge(fn int, in []byte, gen string, size int, risk bool, res
 }
 
 // explore does the level-wise search over the token alphabet.
-func (s *c13state) explore(layer string, tokens []string, riskyMaxDepth func(tok string) int, maxDepth int, sizes []int) {
+func (s *c13state) explore(layer string, tokensAt func(depth int) []string, allow func(prefix []byte, tok string, depth int) bool, maxDepth int, sizes []int) {
 	r := s.r
 	level := []c13item{{in: nil, alive: [2]bool{true, true}, root: -1}}
 	for depth := 1; depth <= maxDepth && len(level) > 0; depth++ {
 		var next []c13item
 		var jobs []c13job
 		var jobItems []c13item
+		tokens := tokensAt(depth)
 		for _, it := range level {
 			for ti, tok := range tokens {
 				root := it.root
@@ -465,7 +482,7 @@ func (s *c13state) explore(layer string, tokens []string, riskyMaxDepth func(tok
 				if !r.Mine(root) {
 					continue
 				}
-				if riskyMaxDepth(tok) < depth {
+				if !allow(it.in, tok, depth) {
 					continue
 				}
 				cand := make([]byte, 0, len(it.in)+len(tok))
@@ -565,14 +582,18 @@ func TestVerif_C13(t *testing.T) {
 		}
 		rawDepth := vrun.Pick(r, 4, 5)
 		lineDepth := vrun.Pick(r, 3, 4)
+		lineFullDepth := vrun.Pick(r, 2, 3) // deeper levels use the reduced line alphabet
 		hugeLineDepth := vrun.Pick(r, 1, 2)
 		hugeRawPos := vrun.Pick(r, 2, 3)
+		hugeRawTotal := vrun.Pick(r, 3, 4)
 		r.Bounds["raw_max_position_of_2^30_token"] = hugeRawPos
+		r.Bounds["raw_max_tokens_of_inputs_with_2^30"] = hugeRawTotal
 		r.Bounds["raw_tokens_max"] = rawDepth
 		r.Bounds["line_tokens_max"] = lineDepth
+		r.Bounds["line_full_alphabet_up_to_depth"] = lineFullDepth
 		r.Bounds["line_tokens_max_for_2^30"] = hugeLineDepth
 		r.Bounds["child_address_space_limit"] = c13asLimit
-		r.Rule = "layer raw: every sequence of <= raw_tokens_max tokens over {17 type bytes, unknown type 'X', digits 0 1 7, lengths -1 -2 minInt64 maxInt64 10^20-1 2^30 65536 ?, CRLF, CR, LF, 'ab'} + EOF; layer line: every sequence of <= line_tokens_max complete header lines {17 type bytes} x {'' 0 1 2 - -0 -1 -2 ? a 65536 2^30 2^62 2^63-1 -2^63 10^20-1} x CRLF (a few with bare LF) and payload pieces; prefixes are extended only while the decoder read past the end of the prefix (and did not already violate); each input through readNextMessage and streamTo with recover, heap bytes allocated during the call measured (runtime/metrics) and required <= 1MiB + 64*len(input); inputs with a >= 8 digit length after a length-carrying type byte run in a child process under RLIMIT_AS 4GiB (a fatal error of the child, confirmed in a fresh child, is a violation); plus deeply nested arrays in the child. non-trivial = input on which a decoder wanted more bytes or that needed the child"
+		r.Rule = "layer raw: every sequence of <= raw_tokens_max tokens over {17 type bytes, unknown type 'X', digits 0 1 7, lengths -1 -2 minInt64 maxInt64 10^20-1 2^30 65536 ?, CRLF, CR, LF, 'ab'} + EOF; layer line: every sequence of <= line_tokens_max complete header lines {17 type bytes} x {'' 0 1 2 - -0 -1 -2 ? a 65536 2^30 2^62 2^63-1 -2^63 10^20-1} x CRLF (a few with bare LF) and payload pieces (beyond line_full_alphabet_up_to_depth a reduced alphabet {+ : $ * % | ; .} x {'' 0 1 -2 ? 65536 2^62 2^63-1}); the 2^30 token (1 GiB allocations are slow even in the child) only at the positions given in bounds; prefixes are extended only while the decoder read past the end of the prefix (and did not already violate); each input through readNextMessage and streamTo with recover, heap bytes allocated during the call measured (runtime/metrics) and required <= 1MiB + 64*len(input); inputs with a >= 8 digit length after a length-carrying type byte run in a child process under RLIMIT_AS 4GiB (a fatal error of the child, confirmed in a fresh child, is a violation); plus deeply nested arrays in the child. non-trivial = input on which a decoder wanted more bytes or that needed the child"
 		r.Assume("allocation is measured as the growth of /gc/heap/allocs:bytes around the call (large objects are accounted immediately; small-object accounting may lag by at most a span per size class, far below the 1 MiB slack)")
 		r.Assume("stack memory is not counted as allocation; a stack overflow is reported as a fatal crash")
 		r.Assume("bufio reader sizes 32 (minimum rueidis configures) and 4096; split reads are covered by C12")
@@ -583,31 +604,46 @@ func TestVerif_C13(t *testing.T) {
 		rawTokens := []string{"+", "-", ":", "$", "_", "#", ",", "(", "!", "=", "*", "~", "%", ">", "|", ";", ".", "X",
 			"0", "1", "7", "-1", "-2", "-9223372036854775808", "9223372036854775807", "99999999999999999999", "1073741824", "65536", "?",
 			"\r\n", "\r", "\n", "ab"}
-		s.explore("raw", rawTokens, func(tok string) int {
-			if tok == "1073741824" { // every 1 GiB allocation costs about a second in the child: bound its position
-				return hugeRawPos
+		huge := []byte("1073741824")
+		s.explore("raw", func(int) []string { return rawTokens }, func(prefix []byte, tok string, depth int) bool {
+			// every 1 GiB allocation costs a noticeable fraction of a second in the child: bound position and total length
+			if tok == "1073741824" && depth > hugeRawPos {
+				return false
 			}
-			return 1 << 30
+			if depth > hugeRawTotal && bytes.Contains(prefix, huge) {
+				return false
+			}
+			return true
 		}, rawDepth, sizes)
 
 		// ---- layer line
-		var lineTokens []string
-		nums := []string{"", "0", "1", "2", "-", "-0", "-1", "-2", "?", "a", "65536", "1073741824", "4611686018427387904", "9223372036854775807", "-9223372036854775808", "99999999999999999999"}
-		for _, ty := range "+-:$_#,(!=*~%>|;." {
-			for _, n := range nums {
-				lineTokens = append(lineTokens, string(ty)+n+"\r\n")
+		mk := func(types string, nums []string) (out []string) {
+			for _, ty := range types {
+				for _, n := range nums {
+					out = append(out, string(ty)+n+"\r\n")
+				}
 			}
+			return
 		}
+		lineTokens := mk("+-:$_#,(!=*~%>|;.", []string{"", "0", "1", "2", "-", "-0", "-1", "-2", "?", "a", "65536", "1073741824", "4611686018427387904", "9223372036854775807", "-9223372036854775808", "99999999999999999999"})
 		for _, ty := range "$*:" {
 			lineTokens = append(lineTokens, string(ty)+"1\n", string(ty)+"12\n")
 		}
 		lineTokens = append(lineTokens, "a\r\n", "ab\r\n", "ab", "a", "\r\n", "t\r\n", "X")
-		s.explore("line", lineTokens, func(tok string) int {
-			if strings.Contains(tok, "1073741824") && c13isLenType(tok[0]) {
-				return hugeLineDepth
+		lineReduced := mk("+:$*%|;.", []string{"", "0", "1", "-2", "?", "65536", "4611686018427387904", "9223372036854775807"})
+		lineReduced = append(lineReduced, "_\r\n", "#t\r\n", "a\r\n", "ab\r\n", "ab", "a", "\r\n", "X")
+		s.explore("line", func(depth int) []string {
+			if depth <= lineFullDepth {
+				return lineTokens
 			}
-			return 1 << 30
+			return lineReduced
+		}, func(prefix []byte, tok string, depth int) bool {
+			if strings.Contains(tok, "1073741824") && c13isLenType(tok[0]) && depth > hugeLineDepth {
+				return false
+			}
+			return true
 		}, lineDepth, sizes)
+		r.Bounds["line_reduced_alphabet"] = len(lineReduced)
 		r.Bounds["raw_alphabet"] = len(rawTokens)
 		r.Bounds["line_alphabet"] = len(lineTokens)
 
